@@ -5,6 +5,10 @@ import os
 from checks import join_common as J
 from vplib import coqtools, harness
 
+# vplib's header sets Printing Depth to 10^7, which makes Coq's printer ~4x slower on string results; strings are single
+# tokens, so the default depth prints them unchanged (checked: identical output)
+FAST_PRINT = "Set Printing Depth 50.\n"
+
 META = {
     "technique": "Coq proof (invariant over arbitrary arrival histories of the JoinBuffer model incl. the std binary search, expiry queue, gc interval and per-key cap) + model/impl differential compared verbatim + brute-force oracle of the property text",
     "design_ref": "DESIGN.md §7 C15, §12 Join",
@@ -35,18 +39,19 @@ def cases_for(run):
                 c = J.case_from_json(item["case"])
                 c["kind"] = "corpus"
                 cases.append(c)
-    n = 420 if run.tier == "quick" else 12000
+    n = 320 if run.tier == "quick" else 12000
     for i in range(n):
         cases.append(J.gen_case(rng, maxlen=14 if i % 4 else 24))
-    for cap in (None, 1):
-        cases += J.exhaustive_small(W=2, cap=cap, nev=4 if run.tier == "quick" else 5)
+    quick = run.tier == "quick"
+    cases += J.exhaustive_small(W=2, cap=None, nev=4 if quick else 5)
+    cases += J.exhaustive_small(W=2, cap=1, nev=3 if quick else 5)
     return cases
 
 
 def check(run):
     run.rule = ("arrival histories on JoinBuffer::add_event: 2- and 3-way joins, windows 1..5 ticks with tick 1/20/100/1000/5000 ms (gc interval clamped low, proportional, clamped high), "
                 "1..3 key values, per-source key fields, caps default/1/2/3, time steps 0 .. beyond the window and the gc interval, in-order with ties and out-of-order streams, events missing the key, "
-                "event types equal to / different from the source name (also named like another source); 2- and 3-way join programs through the Engine (windows 100ms/500ms/2s/1m); plus every in-order 2-source history of 4 (thorough: 5) arrivals with steps 0/1/3 for W=2, cap default and 1; "
+                "event types equal to / different from the source name (also named like another source); 2- and 3-way join programs through the Engine (windows 100ms/500ms/2s/1m); plus every in-order 2-source history of 4 arrivals (cap default) and 3 arrivals (cap 1) with steps 0/1/3 for W=2 (thorough: 5 arrivals, both caps); "
                 "non-trivial = >= 1 joined output and >= 1 refused arrival with both sources seen; distinct = distinct (config, history)")
     run.trusted += ["Coq 8.16.1 kernel + vm_compute",
                     "hand-written model coq/theories/Join/Model.v tied by differential run (every add_event result incl. merged field order and the buffered-event total compared verbatim)",
@@ -56,7 +61,7 @@ def check(run):
     run.assumptions += ["chrono DateTime/Duration arithmetic does not overflow on the explored timestamps (model uses unbounded Z)",
                         "max_events_per_key >= 1 (0 makes Vec::remove(0) panic; modelled as Panicked, excluded from the theorem and the generator)",
                         "every source has a configured join key (find_common_key_field fallback not modelled)"]
-    binpath = J.build_all(run, ["theories/Join/Props.vo"], "C15.v")
+    binpath = J.build_all(run, ["theories/Join/Props.vo", "theories/Join/Run.vo"], "C15.v")
     if binpath is None:
         return
 
@@ -64,7 +69,7 @@ def check(run):
     pps = [J.gen_pp(run.rng) for _ in range(300)]
     a = harness.run_jsonl(binpath, [{"pp": ts, "cutoff": c} for ts, c in pps])
     try:
-        m = coqtools.coq_eval("C15pp", J.IMPORTS, ["pp_case [%s] (%d)%%Z" % ("; ".join("(%d)%%Z" % t for t in ts), c) for ts, c in pps], shard=60)
+        m = coqtools.coq_eval("C15pp", J.IMPORTS, ["pp_case [%s] (%d)%%Z" % ("; ".join("(%d)%%Z" % t for t in ts), c) for ts, c in pps], shard=60, prelude=FAST_PRINT)
         bad = [(p, x["pp"], y) for p, x, y in zip(pps, a, m) if str(x["pp"]) != y]
         if bad:
             run.tie_broken("model of slice::partition_point vs std", "slice %s cutoff %s: std %s, model %s" % (bad[0][0][0], bad[0][0][1], bad[0][1], bad[0][2]))
@@ -87,7 +92,7 @@ def check(run):
     cases = cases_for(run)
     answers = harness.run_jsonl(binpath, [J.j_case(c) for c in cases])
     try:
-        model = coqtools.coq_eval("C15", J.IMPORTS, [J.g_case(c) for c in cases], shard=max(10, len(cases) // 16 + 1))
+        model = coqtools.coq_eval("C15", J.IMPORTS, [J.g_case(c) for c in cases], shard=max(10, len(cases) // 16 + 1), prelude=FAST_PRINT)
     except RuntimeError as e:
         run.tie_broken("model evaluation (coqc cases)", str(e))
         model = [None] * len(cases)
@@ -147,7 +152,7 @@ def check(run):
     ecases = [J.gen_engine_case(run.rng) for _ in range(110 if run.tier == "quick" else 3000)]
     eans = harness.run_jsonl(binpath, [J.j_engine(c) for c in ecases])
     try:
-        emodel = coqtools.coq_eval("C15e", J.IMPORTS, [J.g_case(c) for c in ecases], shard=max(8, len(ecases) // 16 + 1))
+        emodel = coqtools.coq_eval("C15e", J.IMPORTS, [J.g_case(c) for c in ecases], shard=max(8, len(ecases) // 16 + 1), prelude=FAST_PRINT)
     except RuntimeError as e:
         run.tie_broken("model evaluation (coqc engine cases)", str(e))
         emodel = [None] * len(ecases)
